@@ -305,6 +305,12 @@ func (c03) Run(e *Env) {
 			if o.Err {
 				lastErr = true
 				e.Fault("reader_err")
+				if o.Seq&1 == 0 {
+					// the io.Reader flavour: the bytes are there and a length comes with the error; only
+					// successfully read packets are recorded
+					e.Fault("reader_err_with_length")
+					return copy(b, rtpBytes(ssrc, 96, o.Seq, uint32(o.Seq)*3000, 4)), a, errInjected
+				}
 				return 0, nil, errInjected
 			}
 			lastErr = false
